@@ -15,13 +15,13 @@ EXTENDS Integers, Sequences, FiniteSets, TLC, Json
 Roles == {"enc", "sig"}
 Formats(r) == IF r = "enc" THEN {"age", "pgp"} ELSE {"minisign", "pgp"}
 PwClasses == {"empty", "ascii", "multibyte", "long"}
-ParsePw == {"same", "wrong", "empty", "longer"}
+ParsePw == {"same", "wrong", "empty", "longer", "padded"}    \* padded = the right password plus trailing whitespace
 Pairs == {"own", "other"}
 
 \* the password actually presented, as a class relative to the generation password
 Presented(pw, pp) == IF pp = "same" THEN pw
                      ELSE IF pp = "empty" THEN "empty"
-                     ELSE "different"                    \* "wrong" and "longer" are never equal to pw
+                     ELSE "different"                    \* "wrong", "longer" and "padded" are never equal to pw
 
 Key(pair, pw) == [pair |-> pair, pw |-> pw]
 ParseOK(pw, pp) == Presented(pw, pp) = pw
